@@ -46,6 +46,7 @@ def _close(a, b):
 
 class C14(Property):
     id = "C14"
+    anchors = ('finam.data.grid_tools:gen_points', 'finam.data.grid_tools:gen_cells', 'finam.data.grid_tools:gen_node_centers', 'finam.data.grid_tools:point_order')
     technique = "reference-model monitor: closed-form coordinate oracle vs public grid properties over the enumerated configuration product; operation-history differential for data_shape/size/points"
     rule = (
         "configuration = class{uniform,rectilinear,esri} x dim 1-3 x axis lengths 1-4 x order x axes_reversed x per-axis direction x "
